@@ -1,4 +1,24 @@
 package main
 
+import "strconv"
+
 func factsC14() {
+	// ---- C14: the syntactic shape of watchers.go the model relies on
+	w := "pkg/controller/reconciler/watchers.go"
+	addStrList("c14CreateCalls", methodCalls(w, "hdlr", "Create"), "selector calls inside hdlr.Create, in source order")
+	addStrList("c14UpdateCalls", methodCalls(w, "hdlr", "Update"), "selector calls inside hdlr.Update, in source order")
+	addStrList("c14DeleteCalls", methodCalls(w, "hdlr", "Delete"), "selector calls inside hdlr.Delete, in source order")
+	addStrList("c14GenericCalls", methodCalls(w, "hdlr", "Generic"), "selector calls inside hdlr.Generic, in source order")
+	addStrList("c14SwapCalls", methodCalls(w, "watchers", "getChangedObjects"), "selector calls inside watchers.getChangedObjects, in source order")
+	var lits []string
+	for _, fn := range []string{"Create", "Update", "Delete"} {
+		s, err := strconv.Unquote(one(callArgs(w, fn, "h.compose", 0), "h.compose call in hdlr."+fn))
+		if err != nil {
+			fail("hdlr.%s: first argument of h.compose is not a string literal", fn)
+		}
+		lits = append(lits, s)
+	}
+	addStrList("c14ComposeLiterals", lits, "first argument of h.compose in hdlr.Create, Update, Delete")
+	addStrList("c14InitChAssigns", methodAssigns(w, "watchers", "initCh"), "assignments to selectors inside watchers.initCh, in source order")
+	addStrList("c14CmChangeAssigns", methodAssigns(w, "watchers", "handlersCore"), "assignments to selectors inside watchers.handlersCore (the cmChange closure)")
 }
